@@ -5,7 +5,7 @@
 (*   Kind      "state" | "sendjoin" | "chain" | "atstate" | "load"                                             *)
 (*   MaxFaults exhaustive mode: every fault subset with at most this many deviations                            *)
 (*   PairFrom  two deviations: at least one of them concerns an event with id >= PairFrom                       *)
-(*   Sim       TRUE (with -simulate): one random scenario per room with 3..SimFaults deviations                 *)
+(*   Sim       TRUE (with -simulate): random scenarios with 3..SimFaults deviations, several per simulated room    *)
 EXTENDS FedVerify, Json
 
 CONSTANTS Kind, MaxFaults, PairFrom, Sim, SimFaults
@@ -53,7 +53,9 @@ GInit == Init /\ phase = "room" /\ sc = 0
 (* state: /state response for the newest event                             *)
 (***************************************************************************)
 StateApp(e, SL, cited, dis) ==
-    {"badsig", "malformed", "nonstate"}
+    {"badsig", "malformed"}
+      \* (where room IDs are create event IDs a create event without state_key has no room: no such event exists)
+      \cup (IF DomainlessRoomIDs(Ver) /\ E[e].type = "create" THEN {} ELSE {"nonstate"})
       \cup (IF e \in dis THEN {"disallowed"} ELSE {})
       \cup (IF e \in cited THEN {"missing"} ELSE {})
       \cup (IF DomainlessRoomIDs(Ver) /\ E[e].type = "create" THEN {} ELSE {"wrongroom"})
@@ -176,8 +178,11 @@ Pick == CASE Kind = "state" -> PickState
           [] Kind = "atstate" -> PickAtState
           [] Kind = "load" -> PickLoad
 
+\* (simulation: once a scenario has been picked in a room further random scenarios are picked in the same room, so
+\* that one trace yields depth - 3 records instead of one; growing the room is the expensive part of a trace)
 GNext == \/ phase = "room" /\ Next /\ UNCHANGED <<phase, sc>>
          \/ phase = "room" /\ N >= Base /\ Pick /\ UNCHANGED vars
+         \/ phase = "done" /\ Sim /\ Pick /\ UNCHANGED vars
 
 GSpec == GInit /\ [][GNext]_gvars
 
